@@ -428,16 +428,17 @@ fn two_pow<F: Field>() -> TwoPow<F> {
     TwoPow { s, z, tinv: inv }
 }
 
-/// structured inputs for the big fields
-fn structured<F: Field>(rng: &mut Rng, thorough: bool) -> Vec<F> {
+/// structured inputs for the big fields; `level` 0 = light (fields whose spec arithmetic is expensive), 1 = quick, 2 = thorough
+fn structured<F: Field>(rng: &mut Rng, level: usize) -> Vec<F> {
     let n = F::extension_degree() as usize;
     let z0 = F::BasePrimeField::zero();
     let one = F::one();
+    let pick = |a: usize, b: usize, c: usize| [a, b, c][level];
     let mut out: Vec<F> = vec![F::zero(), one, -one];
-    for i in 2..=12u64 { out.push(F::from(i)); out.push(-F::from(i)); }
+    for i in 2..=(pick(3, 12, 12) as u64) { out.push(F::from(i)); out.push(-F::from(i)); }
     out.push(F::from(2u64).inverse().unwrap());
     // base-prime-field elements (squares and non-squares of the subfield) and other prefix subfields
-    for _ in 0..(if thorough { 8 } else { 3 }) {
+    for _ in 0..pick(1, 3, 8) {
         let r = rand_prime::<F::BasePrimeField>(rng);
         out.push(F::from_base_prime_field(r));
         out.push(F::from_base_prime_field(r.square()));
@@ -446,7 +447,7 @@ fn structured<F: Field>(rng: &mut Rng, thorough: bool) -> Vec<F> {
     out.push(F::from_base_prime_field(F::BasePrimeField::GENERATOR));
     for d in [2usize, 3, 4, 6] {
         if d < n && n % d == 0 {
-            for _ in 0..(if thorough { 6 } else { 2 }) {
+            for _ in 0..pick(1, 2, 6) {
                 let mut v = vec![z0; n];
                 for c in v.iter_mut().take(d) { *c = rand_prime(rng); }
                 let e: F = from_coords(v);
@@ -457,6 +458,7 @@ fn structured<F: Field>(rng: &mut Rng, thorough: bool) -> Vec<F> {
     // one non-zero coordinate / one zero coordinate
     for i in 0..n {
         let mut v = vec![z0; n]; v[i] = F::BasePrimeField::one(); out.push(from_coords(v));
+        if level == 0 { continue; }
         let mut v = vec![z0; n]; v[i] = -F::BasePrimeField::one(); out.push(from_coords(v));
         let mut v = vec![z0; n]; v[i] = rand_prime(rng); out.push(from_coords(v));
         if n > 1 { let mut v: Vec<_> = (0..n).map(|_| rand_prime(rng)).collect(); v[i] = z0; out.push(from_coords(v)); }
@@ -466,10 +468,11 @@ fn structured<F: Field>(rng: &mut Rng, thorough: bool) -> Vec<F> {
     let s = tp.s;
     let odd = |rng: &mut Rng| pow2k(rand_elem::<F>(rng), s); // element of odd order
     let mask = if s >= 64 { u64::MAX } else { (1u64 << s) - 1 };
+    let is_ts = matches!(F::SQRT_PRECOMP, Some(SqrtPrecomputation::TonelliShanks { .. }));
     for k in 0..=s {
+        if level == 0 && !is_ts && !(k <= 1 || k + 1 >= s) { continue; }
         let w = pow2k(tp.z, s - k); // order exactly 2^k
-        out.push(w);
-        out.push(w * odd(rng));
+        if level > 0 { out.push(w); out.push(w * odd(rng)); }
         // b = z^(2^(s-k)): a single round with j = v − k (k < s), or the non-residue exit (k = s)
         let e = tp.tinv.wrapping_mul(1u64 << (s - k).min(63)) & mask;
         if s - k < 64 { out.push(tp.z.pow([e]) * odd(rng)); }
@@ -477,16 +480,16 @@ fn structured<F: Field>(rng: &mut Rng, thorough: bool) -> Vec<F> {
     // b = z^(−2): s − 1 rounds (the maximum); b = z^(−1): non-residue found after the longest inner loop
     for e0 in [mask - 1, mask, mask - 3, mask / 3 * 2, 2] {
         let e = tp.tinv.wrapping_mul(e0) & mask;
-        out.push(tp.z.pow([e]));
+        if level > 0 { out.push(tp.z.pow([e])); }
         out.push(tp.z.pow([e]) * odd(rng));
     }
-    for _ in 0..(if thorough { 40 } else { 8 }) {
+    for _ in 0..pick(2, 8, 40) {
         let e = tp.tinv.wrapping_mul(rng.next()) & mask;
         out.push(tp.z.pow([e]) * odd(rng));
     }
     // squares of random elements, random elements, squares times a non-residue
     let qnr = tp.z;
-    for _ in 0..(if thorough { 60 } else { 10 }) {
+    for _ in 0..pick(2, 10, 60) {
         let r: F = rand_elem(rng);
         out.push(r.square());
         out.push(r);
@@ -502,8 +505,8 @@ fn want(only: &Option<String>, id: &str) -> bool { match only { Some(o) => o == 
 enum Mode {
     /// every element when the field has at most this many, otherwise `Sample`
     Exhaustive(u64),
-    /// structured + this many random elements
-    Sample(usize),
+    /// structured (level 0 = light, 1, 2) + this many random elements
+    Sample(usize, usize),
     /// a handful (fields whose `sqrt` is `unimplemented!()`)
     Few,
 }
@@ -511,22 +514,25 @@ enum Mode {
 fn elems<F: Field>(mode: Mode, rng: &mut Rng, thorough: bool) -> Vec<F> {
     match mode {
         Mode::Exhaustive(limit) if field_size::<F>().map(|q| q <= limit).unwrap_or(false) => all_elems::<F>(),
-        Mode::Exhaustive(_) => elems::<F>(Mode::Sample(if thorough { 3000 } else { 400 }), rng, thorough),
-        Mode::Sample(k) => {
-            let mut v = structured::<F>(rng, thorough);
+        Mode::Exhaustive(_) => elems::<F>(Mode::Sample(if thorough { 2 } else { 1 }, if thorough { 3000 } else { 400 }), rng, thorough),
+        Mode::Sample(level, k) => {
+            let mut v = structured::<F>(rng, level);
             for _ in 0..k { let r: F = rand_elem(rng); v.push(r); if v.len() % 3 == 0 { v.push(r.square()); } }
             v
         }
         Mode::Few => {
             let r: F = rand_elem(rng);
-            vec![F::zero(), F::one(), -F::one(), F::from(4u64), F::from_base_prime_field(F::BasePrimeField::GENERATOR), r.square(), r]
+            let n = F::extension_degree() as usize;
+            let mut v = vec![F::BasePrimeField::zero(); n]; v[n - 1] = F::BasePrimeField::one();
+            let top: F = from_coords(v);
+            vec![F::zero(), F::one(), -F::one(), F::from(4u64), F::from_base_prime_field(F::BasePrimeField::GENERATOR), r.square(), r, top, top.square()]
         }
     }
 }
 
 fn field_ops<F: Field>(id: &str, mode: Mode, rng: &mut Rng, thorough: bool, out: &mut Out) {
     let xs = elems::<F>(mode, rng, thorough);
-    let ip_every = if xs.len() > 2000 { 7 } else { 1 };
+    let ip_every = if xs.len() > 1000 { 9 } else if xs.len() > 100 { 3 } else { 1 };
     for (i, x) in xs.iter().enumerate() {
         let x = *x;
         let a = es(&x);
@@ -585,7 +591,7 @@ fn run_fp6a<P: fp6_2over3::Fp6Config>(id: &str, mode: Mode, rng: &mut Rng, th: b
     cfg_line::<fp6_2over3::Fp6<P>>(id, "fp6a", &consts, out);
     field_ops::<fp6_2over3::Fp6<P>>(id, mode, rng, th, out);
 }
-fn run_fp12<P: Fp12Config>(id: &str, h2: &str, h6: &str, rng: &mut Rng, th: bool, out: &mut Out, only: &Option<String>) {
+fn run_fp12<P: Fp12Config>(id: &str, h2: &str, h6: &str, mode: Mode, rng: &mut Rng, th: bool, out: &mut Out, only: &Option<String>) {
     use ark_ff::fields::models::fp6_3over2::Fp6Config;
     if !want(only, id) { return; }
     type C2<P> = <<P as Fp12Config>::Fp6Config as Fp6Config>::Fp2Config;
@@ -593,7 +599,7 @@ fn run_fp12<P: Fp12Config>(id: &str, h2: &str, h6: &str, rng: &mut Rng, th: bool
         es(&<P::Fp6Config as Fp6Config>::NONRESIDUE), list(<P::Fp6Config as Fp6Config>::FROBENIUS_COEFF_FP6_C1),
         list(<P::Fp6Config as Fp6Config>::FROBENIUS_COEFF_FP6_C2), es(&P::NONRESIDUE), list(P::FROBENIUS_COEFF_FP12_C1));
     cfg_line::<Fp12<P>>(id, "fp12", &consts, out);
-    field_ops::<Fp12<P>>(id, Mode::Few, rng, th, out);
+    field_ops::<Fp12<P>>(id, mode, rng, th, out);
 }
 
 // ---------------------------------------------------------------------------------------------
@@ -707,7 +713,10 @@ pub fn run(rng: &mut Rng, th: bool, out: &mut Out, only: &Option<String>) {
     run_fp6a::<S6a_13>("t6a_13", ex_small, rng, th, out, only);
 
     // ---- big fields
-    let big = Sample(if th { 150 } else { 12 });
+    let big = Sample(if th { 2 } else { 1 }, if th { 150 } else { 12 });
+    // fields whose spec arithmetic (Euler's criterion by schoolbook tower multiplication) is expensive
+    let heavy = Sample(if th { 1 } else { 0 }, if th { 30 } else { 4 });
+    let heavier = if th { Sample(0, 10) } else { Few };
     macro_rules! bfp { ($f:ty, $id:expr) => { run_fp::<$f>($id, "fp", big, rng, th, out, only); }; }
     bfp!(bls12_381::Fq, "bls_fq"); bfp!(bls12_381::Fr, "bls_fr");
     bfp!(FDBls381Fr, "zoo_bls_fr_d"); bfp!(FHBls381Fr, "zoo_bls_fr_h"); bfp!(FHBls381Fq, "zoo_bls_fq_h");
@@ -721,12 +730,12 @@ pub fn run(rng: &mut Rng, th: bool, out: &mut Out, only: &Option<String>) {
     run_fp2::<bls12_381::Fq2Config>("bls_fq2", "neg", big, rng, th, out, only);
     run_fp2::<Q2_BlsFr>("q_blsfr", "def", big, rng, th, out, only);
     run_fp2::<Q2_Gold>("q_gold", "def", big, rng, th, out, only);
-    run_fp3::<mnt6_753::Fq3Config>("mnt6_fq3", big, rng, th, out, only);
-    run_fp4::<Q4_BlsFr>("t4_blsfr", "def", big, rng, th, out, only);
-    run_fp6a::<Mnt6Fq6>("mnt6_fq6", big, rng, th, out, only);
+    run_fp3::<mnt6_753::Fq3Config>("mnt6_fq3", heavy, rng, th, out, only);
+    run_fp4::<Q4_BlsFr>("t4_blsfr", "def", heavy, rng, th, out, only);
+    run_fp6a::<Mnt6Fq6>("mnt6_fq6", heavier, rng, th, out, only);
     // quadratic extension of a field without square-root algorithm: every `sqrt` hits `unimplemented!()`
-    run_fp12::<D12_7>("t12_7", "def", "def", rng, th, out, only);
-    run_fp12::<bls12_381::Fq12Config>("bls_fq12", "neg", "bls", rng, th, out, only);
+    run_fp12::<D12_7>("t12_7", "def", "def", Few, rng, th, out, only);
+    run_fp12::<bls12_381::Fq12Config>("bls_fq12", "neg", "bls", Few, rng, th, out, only);
 
     // ---- coordinate recovery
     sw_ops::<SW13>("sw13", "d13", false, rng, th, out, only);
